@@ -611,6 +611,8 @@ func main() {
 	}
 	runEveryByte()
 	runEveryRune()
+	runDMHintRuns()
+	runHugeCanvases()
 	runShortStrings()
 	runCode128Product()
 	runMarginProduct()
@@ -645,8 +647,13 @@ func replay(axes []axis) {
 					}
 				}
 				if !found {
-					var n int
-					if _, e := fmt.Sscanf(lab, "%d", &n); e == nil {
+					var n, m int
+					if k, _ := fmt.Sscanf(lab, "%dx%d", &n, &m); k == 2 { // MIN_SIZE / MAX_SIZE of the dm-hint-run family
+						d, _ := gozxing.NewDimension(n, m)
+						c.hints[a.hint] = d
+					} else if a.hint == gozxing.EncodeHintType_DATA_MATRIX_SHAPE && len(lab) == 1 {
+						c.hints[a.hint] = []dmenc.SymbolShapeHint{dmenc.SymbolShapeHint_FORCE_NONE, dmenc.SymbolShapeHint_FORCE_SQUARE, dmenc.SymbolShapeHint_FORCE_RECTANGLE}[lab[0]-'0']
+					} else if _, e := fmt.Sscanf(lab, "%d", &n); e == nil {
 						c.hints[a.hint] = n
 					}
 				}
